@@ -553,6 +553,8 @@ def c05(run, replay):
         raise vp.ToolFailure("self-test: WsRpc without the stale-delete repair should lose a retried call, got %s" % r["violated"])
     fs = fault_scenarios(rnd, False)
     scen = outage_scenarios(rnd, thorough) + [s for s in fs if s["args"].get("window")][:10] + [s for s in fs if s["sc"] in ("c03.writefail", "trap.staledelete")]
+    # a silent stall is an outage too: the client must notice it by itself (even while the application keeps calling) and heal
+    scen.append({"sc": "c17.keepalive", "args": {"pingms": 10, "timeoutms": 100, "blackhole": "steady", "longx": 1.5, "idlex": 1}})
     trace, viol = run_ws_scenarios(run, wd, scen, "c05", hooks=True, timeout=3000)
     report_ws(run, trace, viol, "C05", scen, "outage")
     run.cov["distinct_nontrivial"] = len(set(json.dumps(s, sort_keys=True) for s in scen))
@@ -897,3 +899,37 @@ def c16(run, replay):
     for s in scen[:3]:
         run.sample(s)
     run.sample([e for e in trace if e.get("ev") in ("RevStart", "RevCallEnd", "CallEnd")][:12])
+
+
+# --------------------------------------------------------------------------------------------- C17
+@check("C17")
+def c17(run, replay):
+    run.assumptions += [
+        "discrete-time model: all (client ping, client timeout, server ping) triples in 1..3 x 2..7(8) x 0..6(9) ticks, one-way delay <= 1 tick, "
+        "application calls at arbitrary ticks, black hole from any tick; the documented constraint is 2*ping < timeout (plus the link delay)",
+        "real executions use millisecond-scale settings with a safety margin (timeout / ping >= 6; the boundary ratio is explored only in the model "
+        "because scheduler jitter would make it flaky on real time) against servers pinging at 0, 1 s, 5 s (default) and 20 ms",
+        "time bounds on the real code are generous multiples: pending calls must fail and a redial must start within 6 x timeout + 300 ms",
+    ]
+    thorough = run.tier == "thorough"
+    wd = run.dir("work")
+    rnd = random.Random(run.seed)
+    run.model_check(wd, "Keepalive.tla", "Keepalive.cfg" if thorough else "Keepalive_q.cfg", timeout=3000)
+    for cfg, inv in (("Keepalive_nopong.cfg", "NeverDroppedWhenHealthy"), ("Keepalive_sendrenews.cfg", "DetectedInBoundedTime")):
+        r = run.tlc(wd, "Keepalive.tla", cfg, timeout=900, tag="model_runs")
+        if r["violated"] != inv:
+            raise vp.ToolFailure("self-test: %s should violate %s, got %s" % (cfg, inv, r["violated"]))
+    settings = [(15, 120), (10, 100), (25, 200), (8, 60)]
+    scen = []
+    for (p, t) in (settings if thorough else rnd.sample(settings, 2)):
+        for srvping in ([-1, 0, 1000, 20] if thorough else rnd.sample([-1, 0, 1000, 20], 2)):
+            for bh in ("idle", "steady", ""):
+                scen.append({"sc": "c17.keepalive", "args": {"pingms": p, "timeoutms": t, "srvpingms": srvping, "blackhole": bh, "afterheal": bh != "",
+                                                             "longx": rnd.choice([1.5, 3, 4]), "idlex": rnd.choice([2, 3])}})
+    trace, viol = run_ws_scenarios(run, wd, scen, "c17", timeout=3000)
+    report_ws(run, trace, viol, "C17", scen, "keepalive")
+    run.cov["distinct_nontrivial"] = len(set(json.dumps(s, sort_keys=True) for s in scen))
+    run.cov["rule"] = "(ping, timeout) x server ping x black-hole point x healthy-again phase; distinct = distinct descriptions"
+    for s in scen[:3]:
+        run.sample(s)
+    run.sample([e for e in trace if e.get("ev") in ("BlackholeOutcome", "DialStart", "PhaseEnd", "PhaseStart")][:12])
